@@ -8,6 +8,8 @@ Case (driver "request"):
    "method": 0 | 2 | 255 | ...,         the method byte the server selects
    "mver": 5,                           version byte of the server's method reply (optional, default 5)
    "msplit": true|false,                deliver the method reply as two 1-byte chunks
+   "as_bytes": true|false,              (optional) hand the target to the API as ASCII bytes instead of str
+                                        (ignored for targets that are not ASCII)
    "tls": false | true | "context"}     (CONNECT only, optional) TorSocksEndpoint(..., tls=True) or
                                         tls=<a context factory object>; the case then ends once the request is
                                         decoded (the success reply is never delivered, so no TLS handshake starts)
@@ -33,7 +35,8 @@ RULE = ("Targets x ports x request types x server method choice: hostnames of 1.
         "dotted-quad tail), ports (boundaries + random in quick, all 65536 in thorough for a name, an IPv4 and an "
         "IPv6 target), CONNECT / RESOLVE / RESOLVE_PTR, server selecting method 0 / 2 / 0xFF / other, method reply "
         "whole or split; CONNECT with tls=False / tls=True / tls=<context factory object> (names in absolute spelling with "
-        "a trailing dot included). Bytes written to the SOCKS transport are decoded by an independent RFC 1928 parser. "
+        "a trailing dot included); targets handed to the API as str or as ASCII bytes (A-label xn-- names included). "
+        "Bytes written to the SOCKS transport are decoded by an independent RFC 1928 parser. "
         "Non-trivial = the server selected 'no authentication' and the target is an IPv6 literal, or a name of "
         ">= 200 bytes, or the port's high and low byte differ; distinct = distinct canonical JSON of the case.")
 ASSUMPTIONS = [
@@ -54,6 +57,8 @@ ASSUMPTIONS = [
     "of scope; tls=True needs pyOpenSSL + service_identity (present here; otherwise those cases are counted as "
     "excluded); a name that twisted's optionsForClientTLS itself rejects before anything is connected (IDNA: "
     "'_', leading '-', > 253 bytes) is counted as excluded for tls=True, not judged",
+    "TorSocksEndpoint / resolve / resolve_ptr accept the host as bytes: those are the ASCII octets of the name "
+    "or literal and must go out exactly like the str form (an xn-- A-label is an ordinary ASCII name on the wire)",
     "when the server selects a method other than 0 no request may be written at all (how the attempt then "
     "fails is C05's subject)",
 ]
@@ -156,22 +161,28 @@ def drive_request(case):
         return res
 
     pipe = SocksPipe(ref.encode_method_reply(method, ver=mver), lambda request: REPLY_AFTER[req])
+    # the documented API takes the host as str or as bytes (an ASCII name / literal, e.g. the .host of a URI);
+    # either way the same octets must go out
+    arg = target
+    if case.get("as_bytes") and target.isascii():
+        arg = target.encode("ascii")
+        res.label("host-passed-as-bytes" + (":a-label" if "xn--" in target else ""))
     sync_error = None
     w = None
     try:
         if req == "CONNECT":
             if tls == "context":
                 from twisted.internet.ssl import CertificateOptions
-                ep = socks.TorSocksEndpoint(pipe.endpoint, target, port, tls=CertificateOptions())
+                ep = socks.TorSocksEndpoint(pipe.endpoint, arg, port, tls=CertificateOptions())
             elif tls:
-                ep = socks.TorSocksEndpoint(pipe.endpoint, target, port, tls=True)
+                ep = socks.TorSocksEndpoint(pipe.endpoint, arg, port, tls=True)
             else:
-                ep = socks.TorSocksEndpoint(pipe.endpoint, target, port)
+                ep = socks.TorSocksEndpoint(pipe.endpoint, arg, port)
             d = ep.connect(_silent_factory())
         elif req == "RESOLVE":
-            d = socks.resolve(pipe.endpoint, target)
+            d = socks.resolve(pipe.endpoint, arg)
         else:
-            d = socks.resolve_ptr(pipe.endpoint, target)
+            d = socks.resolve_ptr(pipe.endpoint, arg)
         w = Watch(d)
     except Exception as e:        # refusing a target synchronously is a legitimate way to refuse
         sync_error = e
@@ -353,6 +364,8 @@ def names():
     short = st.lists(st.text(alphabet=LABEL_CHARS, min_size=1, max_size=12), min_size=1, max_size=4).map(".".join)
     realistic = st.sampled_from(["example.com", "meejah.ca", "torproject.org.", "localhost", "a", "x.y",
                                  "timaq4ygg2iegci7.onion", "xn--exmple-cua.com", "_dmarc.example.org",
+                                 "xn--bcher-kva.example", "www.xn--80ak6aa92e.com", "xn--nxasmq6b.gr", "xn--p1ai.",
+                                 "a.xn--mnchen-3ya.de.", "xn--fiqs8s",
                                  "2gzyxa5ihm7nsggfxnu52rck2vv4rvmdlkiu3zzui5du4xyclen53wid.onion"])
     sized = st.builds(name_of_len,
                       st.one_of(st.sampled_from([1, 2, 63, 64, 127, 128, 199, 200, 252, 253, 254, 255]),
@@ -455,11 +468,13 @@ def mvers():
 
 
 def cases():
-    return st.builds(lambda r, t, p, m, v, s, tls: {"req": r, "target": t, "port": p, "method": m, "mver": v,
-                                                    "msplit": s, "tls": tls if r == "CONNECT" else False},
+    return st.builds(lambda r, t, p, m, v, s, tls, b: {"req": r, "target": t, "port": p, "method": m, "mver": v,
+                                                       "msplit": s, "tls": tls if r == "CONNECT" else False,
+                                                       "as_bytes": b},
                      st.sampled_from(["CONNECT", "CONNECT", "RESOLVE", "RESOLVE_PTR"]),
                      targets(), ports(), methods(), mvers(), st.booleans(),
-                     st.sampled_from([False, False, True, True, "context"]))
+                     st.sampled_from([False, False, True, True, "context"]),
+                     st.sampled_from([False, False, True]))
 
 
 # --------------------------------------------------------------------------- explicit enumerations
@@ -505,6 +520,27 @@ def boundary_cases():
                 yield c
 
 
+A_LABEL_NAMES = ["xn--bcher-kva.example", "xn--exmple-cua.com", "www.xn--80ak6aa92e.com", "xn--nxasmq6b.gr",
+                 "xn--p1ai.", "a.xn--mnchen-3ya.de.", "xn--fiqs8s", "XN--BCHER-KVA.example".lower(),
+                 "xn--" + "a" * 59 + ".example", "xn--zckzah.xn--zckzah", "xn--.example", "xn--a.example"]
+
+
+def bytes_host_cases():
+    """targets handed over as bytes: A-label (xn--) names, plain names, literals, boundary lengths"""
+    plain = ["example.com", "example.com.", "timaq4ygg2iegci7.onion", "1.2.3.4", "2001:db8::ff00:42:8329",
+             name_of_len(255, "k"), name_of_len(256, "k"), "_dmarc.example.org"]
+    for t in A_LABEL_NAMES + plain:
+        for req in ("CONNECT", "RESOLVE", "RESOLVE_PTR"):
+            for b in (True, False):
+                c = _case(req, t, 443 if req == "CONNECT" else 0, 0)
+                c["as_bytes"] = b
+                yield c
+        for tls in (True, "context"):
+            c = _case("CONNECT", t, 0x1234, 0, tls=tls)
+            c["as_bytes"] = True
+            yield c
+
+
 def tls_cases():
     """the request must not depend on the tls argument: same targets with tls False / True / context object"""
     names_ = ["example.com", "example.com.", "www.example.com.", "torproject.org.", "a.", "x.y.z.",
@@ -540,6 +576,7 @@ def run(ctx):
     ctx.search("request", cases(), quick=4000, thorough=30000)
     ctx.enumerate("request", boundary_cases(), name="boundary-targets-x-methods")
     ctx.enumerate("request", tls_cases(), name="targets-x-tls-modes")
+    ctx.enumerate("request", bytes_host_cases(), name="hosts-as-bytes(a-labels,names,literals)")
     if ctx.quick():
         ctx.enumerate("request", port_sample_cases(), name="port-sample", exhaustive=False)
         ctx.enumerate("request", every_name_length_cases(step=7), name="name-lengths-sample", exhaustive=False)
@@ -590,6 +627,13 @@ MUTANTS = [
     ("tls-context-object-truncates-target-to-254", _F,
      "                context = self._tls\n",
      "                context = self._tls\n                self._host = self._host[:254]\n"),
+    # hosts given as bytes are ASCII, not IDNA
+    ("endpoint-bytes-host-decoded-as-idna", _F,
+     "            host = host.decode('ascii')", "            host = host.decode('idna')"),
+    ("resolve-bytes-host-decoded-as-idna", _F,
+     "        hostname = hostname.decode('ascii')", "        hostname = hostname.decode('idna')"),
+    ("resolve-ptr-bytes-ip-not-decoded", _F,
+     "        ip = ip.decode('ascii')", "        ip = str(ip)"),
     # resolve forms
     ("resolve-ptr-address-reversed", _F,
      "encoded_host = inet_aton(self._addr.host)", "encoded_host = inet_aton(self._addr.host)[::-1]"),
